@@ -402,12 +402,190 @@ fn cmd_mutate(a: &Args) -> i32 {
     0
 }
 
+
+// ---------------------------------------------------------------------------------------------
+// hostile container files, single-object messages and compressed blocks (inputs only)
+// ---------------------------------------------------------------------------------------------
+fn zz(n: i64) -> Vec<u8> {
+    let mut z = ((n << 1) ^ (n >> 63)) as u64;
+    let mut out = vec![];
+    loop {
+        if z < 0x80 {
+            out.push(z as u8);
+            break;
+        }
+        out.push((z & 0x7f) as u8 | 0x80);
+        z >>= 7;
+    }
+    out
+}
+fn raw_file(meta: &[(&str, Vec<u8>)], marker: [u8; 16], blocks: &[(i64, Vec<u8>)]) -> Vec<u8> {
+    let mut f = b"Obj\x01".to_vec();
+    if !meta.is_empty() {
+        f.extend(zz(meta.len() as i64));
+        for (k, v) in meta {
+            f.extend(zz(k.len() as i64));
+            f.extend(k.as_bytes());
+            f.extend(zz(v.len() as i64));
+            f.extend(v);
+        }
+    }
+    f.push(0);
+    f.extend(marker);
+    for (count, payload) in blocks {
+        f.extend(zz(*count));
+        f.extend(zz(payload.len() as i64));
+        f.extend(payload);
+        f.extend(marker);
+    }
+    f
+}
+
+fn cmd_gen_files(a: &Args) -> i32 {
+    let mut out = open_out(a.req("out"));
+    let mut rng = Rng::new(a.u64("seed", 1));
+    let per = a.usize("per", 40);
+    let mut id = a.usize("first-id", 0);
+    let null_s = json!({"k":"null"});
+    let mut emit = |entry: &str, s: &J, bytes: &[u8], origin: &str, out: &mut Box<dyn Write>| {
+        if bytes.len() <= 20000 {
+            writeln!(out, "{}", json!({"id": small(id), "entry": entry, "s": s, "bytes": bytes_j(bytes), "origin": origin})).unwrap();
+            id += 1;
+        }
+    };
+    let m = [7u8; 16];
+    // --- valid files from the real writer, all codecs, then damaged
+    let schemas = [r#""long""#, r#"{"type":"record","name":"R","fields":[{"name":"a","type":"long"},{"name":"b","type":"string"}]}"#,
+                   r#"{"type":"array","items":"null"}"#, r#"{"type":"fixed","name":"F","size":4}"#];
+    let codecs = ["null", "deflate", "snappy", "bzip2", "xz", "zstandard"];
+    for (si, st) in schemas.iter().enumerate() {
+        let schema = Schema::parse_str(st).unwrap();
+        for c in codecs {
+            let mut w = apache_avro::Writer::builder().schema(&schema).writer(Vec::new()).codec(codec_of(c).unwrap())
+                .marker(m).block_size(8).build().unwrap();
+            for k in 0..5i64 {
+                let v = match si {
+                    0 => Value::Long(k * 1000),
+                    1 => Value::Record(vec![("a".into(), Value::Long(k)), ("b".into(), Value::String(format!("s{k}")))]),
+                    2 => Value::Array(vec![Value::Null; k as usize]),
+                    _ => Value::Fixed(4, vec![k as u8; 4]),
+                };
+                w.append_value(v).unwrap();
+            }
+            let file = w.into_inner().unwrap();
+            emit("container", &null_s, &file, "valid", &mut out);
+            for _ in 0..per {
+                let mut f = file.clone();
+                let origin;
+                match rng.below(5) {
+                    0 => { let k = rng.below(f.len()); f.truncate(k); origin = "trunc"; }
+                    1 => { let i = rng.below(f.len()); f[i] ^= 1 << rng.below(8); origin = "flip"; }
+                    2 => { let i = rng.below(f.len()); f[i] = *rng.pick(&[0u8, 1, 0x7f, 0x80, 0xff]); origin = "set"; }
+                    3 => {
+                        let i = rng.below(f.len());
+                        let big: &[u8] = *rng.pick(&[&[0xfeu8, 0xff, 0xff, 0xff, 0xff, 0xff, 0xff, 0xff, 0xff, 0x01][..],
+                                                     &[0xff, 0xff, 0xff, 0xff, 0xff, 0xff, 0xff, 0xff, 0xff, 0x01][..],
+                                                     &[0x80, 0x80, 0x80, 0x80, 0x10][..], &[0x80, 0x80, 0x80, 0x01][..]]);
+                        let mut g = f[..i].to_vec(); g.extend_from_slice(big); g.extend_from_slice(&f[i + 1..]); f = g; origin = "huge";
+                    }
+                    _ => { let i = rng.below(f.len()); let tail = f[i..].to_vec(); f.extend(tail); origin = "dup"; }
+                }
+                emit("container", &null_s, &f, origin, &mut out);
+            }
+        }
+    }
+    // --- hand-made hostile headers
+    let sch = |t: &str| t.as_bytes().to_vec();
+    let hostile: Vec<(&str, Vec<u8>)> = vec![
+        ("empty-level-bzip2", raw_file(&[("avro.schema", sch("\"long\"")), ("avro.codec", sch("bzip2")), ("avro.codec.compression_level", vec![])], m, &[])),
+        ("empty-level-xz", raw_file(&[("avro.schema", sch("\"long\"")), ("avro.codec", sch("xz")), ("avro.codec.compression_level", vec![])], m, &[])),
+        ("empty-level-zstd", raw_file(&[("avro.schema", sch("\"long\"")), ("avro.codec", sch("zstandard")), ("avro.codec.compression_level", vec![])], m, &[])),
+        ("level-255-xz", raw_file(&[("avro.schema", sch("\"long\"")), ("avro.codec", sch("xz")), ("avro.codec.compression_level", vec![255])], m, &[(1, vec![2])])),
+        ("level-255-bzip2", raw_file(&[("avro.schema", sch("\"long\"")), ("avro.codec", sch("bzip2")), ("avro.codec.compression_level", vec![255])], m, &[(1, vec![2])])),
+        ("level-255-zstd", raw_file(&[("avro.schema", sch("\"long\"")), ("avro.codec", sch("zstandard")), ("avro.codec.compression_level", vec![255])], m, &[(1, vec![2])])),
+        ("codec-garbage", raw_file(&[("avro.schema", sch("\"long\"")), ("avro.codec", vec![0xff, 0xfe])], m, &[])),
+        ("codec-unknown", raw_file(&[("avro.schema", sch("\"long\"")), ("avro.codec", sch("lz4"))], m, &[])),
+        ("no-schema", raw_file(&[("avro.codec", sch("null"))], m, &[])),
+        ("schema-not-json", raw_file(&[("avro.schema", sch("{"))], m, &[])),
+        ("fixed-2p40", raw_file(&[("avro.schema", sch(r#"{"type":"fixed","name":"F","size":1099511627776}"#))], m, &[(1, vec![1, 2, 3])])),
+        ("fixed-u64max", raw_file(&[("avro.schema", sch(r#"{"type":"fixed","name":"F","size":18446744073709551615}"#))], m, &[(1, vec![1, 2, 3])])),
+        ("fixed-2p31", raw_file(&[("avro.schema", sch(r#"{"type":"fixed","name":"F","size":2147483648}"#))], m, &[(1, vec![1, 2, 3])])),
+        ("array-fixed-2p33", raw_file(&[("avro.schema", sch(r#"{"type":"array","items":{"type":"fixed","name":"F","size":8589934592}}"#))], m, &[(1, vec![2, 0])])),
+        ("decimal-fixed-2p40", raw_file(&[("avro.schema", sch(r#"{"type":"fixed","name":"F","size":1099511627776,"logicalType":"decimal","precision":5}"#))], m, &[(1, vec![1])])),
+        ("null-items-2p40", raw_file(&[("avro.schema", sch("\"null\""))], m, &[(1 << 40, vec![])])),
+        ("array-null-2p40", raw_file(&[("avro.schema", sch(r#"{"type":"array","items":"null"}"#))], m, &[(1, { let mut p = zz(1 << 40); p.push(0); p })])),
+        ("block-size-2p40", { let mut f = raw_file(&[("avro.schema", sch("\"long\""))], m, &[]); f.extend(zz(1)); f.extend(zz(1 << 40)); f.extend([2u8; 20]); f }),
+        ("block-size-neg", { let mut f = raw_file(&[("avro.schema", sch("\"long\""))], m, &[]); f.extend(zz(1)); f.extend(zz(-5)); f.extend([2u8; 20]); f }),
+        ("block-count-neg", { let mut f = raw_file(&[("avro.schema", sch("\"long\""))], m, &[]); f.extend(zz(-3)); f.extend(zz(1)); f.extend([2u8; 1]); f.extend(m); f }),
+        ("meta-count-2p40", { let mut f = b"Obj\x01".to_vec(); f.extend(zz(1 << 40)); f.extend([0u8; 30]); f }),
+        ("meta-count-min", { let mut f = b"Obj\x01".to_vec(); f.extend(zz(i64::MIN)); f.extend(zz(5)); f.extend([0u8; 30]); f }),
+        ("meta-value-2p40", { let mut f = b"Obj\x01".to_vec(); f.extend(zz(1)); f.extend(zz(11)); f.extend(b"avro.schema"); f.extend(zz(1 << 40)); f.extend([0u8; 30]); f }),
+        ("deep-schema", raw_file(&[("avro.schema", { let mut t = String::new(); for _ in 0..200 { t.push_str(r#"{"type":"array","items":"#); } t.push_str("\"int\""); for _ in 0..200 { t.push('}'); } t.into_bytes() })], m, &[])),
+    ];
+    for (name, f) in &hostile {
+        emit("container", &null_s, f, name, &mut out);
+    }
+    // --- single-object messages: valid, then every truncation and a few flips
+    for (st, term) in [(r#""long""#, json!({"k":"long"})), (r#"{"type":"array","items":"null"}"#, json!({"k":"array","items":{"k":"null"}})),
+                       (r#"["null","string"]"#, json!({"k":"union","branches":[{"k":"null"},{"k":"string"}]}))] {
+        let schema = Schema::parse_str(st).unwrap();
+        let mut w = apache_avro::GenericSingleObjectWriter::new_with_capacity(&schema, 64).unwrap();
+        let v = match st { r#""long""# => Value::Long(-123456789), r#"["null","string"]"# => Value::Union(1, Box::new(Value::String("héllo".into()))), _ => Value::Array(vec![Value::Null; 3]) };
+        let mut msg = vec![];
+        w.write_value_ref(&v, &mut msg).unwrap();
+        emit("single", &term, &msg, "valid", &mut out);
+        for k in 0..msg.len() {
+            emit("single", &term, &msg[..k], "trunc", &mut out);
+        }
+        for _ in 0..per.min(20) {
+            let mut f = msg.clone();
+            let i = rng.below(f.len());
+            f[i] ^= 1 << rng.below(8);
+            emit("single", &term, &f, "flip", &mut out);
+        }
+        let mut f = msg[..10].to_vec();
+        f.extend(zz(1 << 40));
+        f.push(0);
+        emit("single", &term, &f, "huge", &mut out);
+    }
+    // --- compressed blocks: bombs, truncations, garbage
+    for c in codecs {
+        let entry = format!("decompress:{c}");
+        let codec = codec_of(c).unwrap();
+        for (nm, plain) in [("bomb8m", vec![0u8; 8 << 20]), ("small", b"hello hello hello hello".to_vec()), ("empty", vec![])] {
+            let mut buf = plain.clone();
+            if codec.compress(&mut buf).is_err() {
+                continue;
+            }
+            emit(&entry, &null_s, &buf, nm, &mut out);
+            if !buf.is_empty() && buf.len() < 2000 {
+                for _ in 0..per.min(12) {
+                    let mut f = buf.clone();
+                    match rng.below(3) {
+                        0 => { let k = rng.below(f.len()); f.truncate(k); }
+                        1 => { let i = rng.below(f.len()); f[i] ^= 1 << rng.below(8); }
+                        _ => { let i = rng.below(f.len()); f[i] = rng.next() as u8; }
+                    }
+                    emit(&entry, &null_s, &f, "damaged", &mut out);
+                }
+            }
+        }
+        for _ in 0..per.min(15) {
+            let n = rng.below(40);
+            let g: Vec<u8> = (0..n).map(|_| rng.next() as u8).collect();
+            emit(&entry, &null_s, &g, "garbage", &mut out);
+        }
+    }
+    0
+}
+
 fn main() {
     quiet_panics();
     let args = parse_args();
     let rc = match args.cmd.as_str() {
         "run" => cmd_run(&args),
         "mutate" => cmd_mutate(&args),
+        "gen-files" => cmd_gen_files(&args),
         other => {
             eprintln!("unknown command {other:?}");
             2
